@@ -599,7 +599,8 @@ package cose
 // ===================================================================
 
 //@ spec canIntV(v any) Bool = isIntKey(v)
-//@ spec canUintV(v any) Bool = isUnsignedKey(v) || (isSignedKey(v) && intOf(v) >= 0)
+// a CBOR uint that the library's own decoder can hand back (it decodes integers into int64 and refuses larger ones)
+//@ spec canUintV(v any) Bool = (isUnsignedKey(v) && intOf(v) <= 9223372036854775807) || (isSignedKey(v) && intOf(v) >= 0)
 // content type / typ: uint, or a non-empty type/subtype text without leading or trailing blank
 //@ spec ctOK(v any) Bool = canUintV(v) || (v is string && len(v.(string)) > 0 && v.(string)[0] != 32 && v.(string)[len(v.(string)) - 1] != 32 && str_count(v.(string), "/") == 1)
 // State-independent forms (the map's key set D, its values V and the []any element store EA are passed explicitly), so
